@@ -141,6 +141,11 @@ def body(ctx, case):
     hyps_again = [(h.transcript, float(h.vis_sc), float(h.lm_sc)) for h in again[0]]
     ctx.check(sorted(hyps_again) == sorted(hyps), "result_depends_on_decoder_history",
               lambda: "first %r, after another line %r; " % (sorted(hyps), sorted(hyps_again)) + desc())
+    # the bag and the state handed back for the first call are still what they were
+    hyps_later = [(h.transcript, float(h.vis_sc), float(h.lm_sc)) for h in boh]
+    ctx.check(hyps_later == hyps, "earlier_bag_changed_by_a_later_call", lambda: "was %r, is %r; " % (hyps, hyps_later) + desc())
+    if unique_best:
+        ctx.check(states_equal(lm_type, h_ret, want_state), "returned_state_changed_by_a_later_call", desc)
     # the same decoder used for a later line that starts from a *different* LM state, and through the plain call
     # (no state returned, no end-of-line modelling): every reported LM score is still the LM's own score
     if lm_type == "hash":
